@@ -510,7 +510,12 @@ impl Gen {
           format!("{private}class {}{tp}({})", c.name, vs.join(", "))
         }
       };
-      let imp = c.implements.as_ref().map(|i| format!(" : {i}")).unwrap_or_default();
+      let imp = if c.tparam.is_none() && rng.chance(1, 15) {
+        // a cyclic hierarchy: the class or interface names itself as its super type
+        format!(" : {}", c.name)
+      } else {
+        c.implements.as_ref().map(|i| format!(" : {i}")).unwrap_or_default()
+      };
       out.push_str(&format!("{header}{imp} {{\n"));
       for f in &c.fns {
         self.comment(rng, &mut out, "  ", true);
@@ -668,7 +673,9 @@ impl Gen {
           // lambda bound to a local, then applied
           let p = self.fresh_lower(rng, &taken);
           let name = self.fresh_lower(rng, &[taken.clone(), vec![p.clone()]].concat());
-          s.push_str(&format!("    let {name} = ({p}: int) -> {p} + 1;\n"));
+          // the body may capture parameters and locals of the enclosing member
+          let captured = self.gen_expr(rng, &Ty::Int, 1, scope, visible);
+          s.push_str(&format!("    let {name} = ({p}: int) -> {p} + {captured};\n"));
           let r = self.fresh_lower(rng, &[taken, vec![p, name.clone()]].concat());
           s.push_str(&format!("    let {r} = {name}(2);\n"));
           scope.locals.push((r, Ty::Int));
